@@ -59,8 +59,8 @@ def _stub_recorder(P, log, modname, fname, result):
 def wiring_runs(P):
     """abstract runs of run_bldfm_single over its option space"""
     out = []
-    for z0_mode, flux_given, levels_kind, full_output, met_list in itertools.product(("none", "only", "both"), (False, True), ("none", "empty", "list"), (False, True), (False, True)):
-        ov = {}
+    for z0_mode, flux_given, levels_kind, full_output, met_list, fp_mode in itertools.product(("none", "only", "both"), (False, True), ("none", "empty", "list"), (False, True), (False, True), (False, True)):
+        ov = {"config.solver.footprint": fp_mode}  # both modes: in footprint mode the solver reads only the shape of the flux field
         z0_given = z0_mode != "none"
         lv = None
         if levels_kind == "empty":
@@ -98,7 +98,7 @@ def wiring_runs(P):
         mi = alg.sym("met_index", integer=True)
         res = CM.run_paths(P, "bldfm.interface", "run_bldfm_single", [cfg, tower], {"met_index": mi, "surface_flux": flux, "cache": cache}, stubs=stubs)
         _np.GRID_CONTRACTS.clear()
-        out.append(dict(z0=z0_given, z0_mode=z0_mode, flux=flux_given, levels=levels_kind, lv=lv, full=full_output, met_list=met_list, cfg=cfg, tower=tower, log=log, res=res,
+        out.append(dict(z0=z0_given, z0_mode=z0_mode, flux=flux_given, levels=levels_kind, lv=lv, full=full_output, met_list=met_list, fp=fp_mode, cfg=cfg, tower=tower, log=log, res=res,
                         syms=dict(Uw=Uw, Vw=Vw, z=zsym, prof=prof, ideal=ideal, grid=grid, conc=conc, flx=flx, mi=mi, flux=flux, cache=cache)))
     return out
 
@@ -123,7 +123,7 @@ def _default_of(P, modname, fname, formal):
 
 def wire_obligations(P, run):
     obs = []
-    tag = "z0=%s flux=%s levels=%s full_output=%s series=%s" % (run["z0_mode"], run["flux"], run["levels"], run["full"], run["met_list"])
+    tag = "z0=%s flux=%s levels=%s full_output=%s series=%s%s" % (run["z0_mode"], run["flux"], run["levels"], run["full"], run["met_list"], " footprint" if run.get("fp") else "")
     site0 = "src/bldfm/interface.py::run_bldfm_single"
     rets = [r for r in run["res"] if r.kind == "return"]
     if len(run["res"]) != 1 or len(rets) != 1:
@@ -180,6 +180,11 @@ def wire_obligations(P, run):
     if run["flux"]:
         one("ideal_source", 0)
         flux_val = sy["flux"]
+    elif run.get("fp") and not calls.get("ideal_source"):
+        # footprint mode without a supplied flux: the solver starts from a unit point source and reads only the shape of the
+        # field, so any field on the configured grid does (the ideal source need not be built)
+        flux_val = "<any field of shape (ny, nx)>"
+        c = None
     else:
         c = one("ideal_source")
         flux_val = sy["ideal"]
@@ -193,7 +198,13 @@ def wire_obligations(P, run):
     if c:
         b, sup, _ = c
         f = "steady_state_transport_solver"
-        edge(f, b, "srf_flx", flux_val, "the supplied flux, else the ideal source")
+        if flux_val == "<any field of shape (ny, nx)>":
+            got = b.get("srf_flx")
+            oks = isinstance(got, Arr) and got.shape is not None and len(got.shape) == 2 and got.shape[0].eq(dom["ny"]) and got.shape[1].eq(dom["nx"])
+            obs.append(req_ob("R-WIRE", site0 + "::call of %s" % f, "%s.srf_flx receives a field on the configured (ny, nx) grid (footprint mode, no flux supplied) (%s)" % (f, tag), oks if (oks or isinstance(got, Arr)) else None,
+                              detail=None if oks else "got %s" % show(got), key={"callee": f, "formal": "srf_flx"}))
+        else:
+            edge(f, b, "srf_flx", flux_val, "the supplied flux, else the ideal source")
         edge(f, b, "z", sy["z"], "z from vertical_profiles")
         edge(f, b, "profiles", sy["prof"], "profiles from vertical_profiles")
         edge(f, b, "domain", Tup([dom["xmax"], dom["ymax"]]), "(xmax, ymax)")
@@ -715,7 +726,7 @@ def range_steps_obligations(P):
         res = CM.run_paths(P, "bldfm.interface", "run_bldfm_timeseries", [cfg, tower], {"surface_flux": flux}, stubs={"bldfm.interface.run_bldfm_single": ps._single_stub([])})
         rets = [r for r in res if r.kind == "return"]
         if len(res) == 1 and len(rets) == 1:
-            ok, why = ps._unk(ps._expect_series(tower, nsteps, flux, "None"), rets[0].value)
+            ok, why = ps._unk(ps._expect_series(tower, nsteps, flux, "None", cfg, P), rets[0].value)
         else:
             ok, why = (False if res else None), str([(r.kind, r.raise_desc) for r in res])[:200]
     except AnalysisError as e:
